@@ -11,6 +11,7 @@ import (
 	"go/token"
 	"os"
 	"path/filepath"
+	"regexp"
 	"sort"
 	"strings"
 )
@@ -26,9 +27,9 @@ var sharedFields = []shared{
 
 type access struct {
 	typ, field, fn string
-	write       bool
-	held        string // "", "R", "W"
-	line        int
+	write          bool
+	held           string // "", "R", "W"
+	line           int
 }
 
 func recvType(fd *ast.FuncDecl) (name string, ident string) {
@@ -383,6 +384,13 @@ func main() {
 					if d.Name.Name == "tlsServe" {
 						facts["handshakeOutsideAcceptLoop"] = !strings.Contains(src, "Handshake()")
 					}
+				case "Server.executeCommand":
+					src := nodeString(fset, names, d.Body)
+					gate, run := strings.Index(src, "!conn.IsAuthrized()"), strings.Index(src, "cmdExecutor(conn")
+					facts["authGateBeforeExecutor"] = gate >= 0 && run > gate && strings.Count(src, "cmdExecutor(") == 1
+					// the only exemption from the gate is the AUTH command itself
+					ex := regexp.MustCompile(`if !conn\.IsAuthrized\(\) \{\s*if upperCmd != "AUTH" \{\s*return nil, ErrNotAuthrized\s*\}\s*\}`)
+					facts["authGateExemptsOnlyAuth"] = ex.MatchString(src)
 				case "Server.dispatch":
 					src := nodeString(fset, names, d.Body)
 					lock, unlock, call := strings.Index(src, "dispatchMutex.Lock()"), strings.Index(src, "defer server.dispatchMutex.Unlock()"), strings.Index(src, "handleMessage(")
